@@ -87,6 +87,8 @@ def gen(ctx):
     break_order = 0 <= br.find("emit_close_upscopes(") < br.find("get_up_scope_of_any_kind('is_loop', 'is_switch')")
     df = func("visitors.Defer")
     defer_reg = "context.scope:add_defer_block(blocknode)" in df
+    ftv = func("visitors.Fallthrough")
+    ft_closes = 0 <= ftv.find("cgenerator.emit_close_scope(context, emitter, context.scope)") < ftv.find("NELUA_FALLTHROUGH(); /* fallthrough */")
     sc = vlib.repo_read("lualib/nelua/scope.lua")
     append = bool(re.search(r"function Scope:add_defer_block\(blocknode\).*?deferblocks\[#deferblocks\+1\] = blocknode", sc, re.S))
 
@@ -111,11 +113,13 @@ def gen(ctx):
            "Definition gen_continue_stop_then_cleanup_then_continue : bool := %s.\n" % b(cont_order) +
            "Definition gen_break_cleanup_before_jump : bool := %s.\n" % b(break_order) +
            "Definition gen_defer_registers_on_current_scope : bool := %s.\n" % b(defer_reg) +
-           "Definition gen_defer_blocks_appended : bool := %s.\n" % b(append))
+           "Definition gen_defer_blocks_appended : bool := %s.\n" % b(append) +
+           "Definition gen_fallthrough_closes_scope : bool := %s.\n" % b(ft_closes))
     vlib.write_if_changed(os.path.join(vlib.coq_dir(ID), "Gen.v"), txt)
     return {"breakflow_tags": tags, "close_loop": list(loop), "closing_guard": guard, "block_order": blk_order,
             "return_value_saved_before_cleanup": ret_tmp_first, "in_value_before_cleanup": in_first,
-            "continue_order": cont_order, "break_order": break_order, "upscopes": [up_first, up_loop]}
+            "continue_order": cont_order, "break_order": break_order, "upscopes": [up_first, up_loop],
+            "fallthrough_closes_scope": ft_closes}
 
 
 # ------------------------------------------------------------------ corpus / witnesses
@@ -141,11 +145,6 @@ def from_json(x):
 # programs on which the unchanged generator violates the property (replayed on every run; the keys are
 # listed in known_findings/C15.json).  Each: (key, void, body, oracle, what)
 WITNESSES = [
-    ("defer-in-fallthrough-case: switch zzcv do case 0 then defer..end fallthrough case 1 ..",
-     True,
-     [('switch', 1, [([('defer', 2, []), ('emit', 3)], True), ([('emit', 4)], False)], [])],
-     [0],
-     "a defer registered directly in a switch case block that ends in `fallthrough` never runs (visitors.Block skips emit_close_scope because Fallthrough is_breakflow, visitors.Fallthrough emits no clean-up)"),
     ("return-inside-defer: defer A end defer if c then return end end",
      True,
      [('defer', 1, []), ('defer', 2, [('if', 3, [('retvoid',)], [])]), ('emit', 4)],
